@@ -82,6 +82,14 @@ def run_reports(prop, tier, seed, exports=False, gantt=False, replay=None, procs
         extra = [p for p in FT.fam_C02(tier, seed) if not p.get("_opts", {}).get("solutions_only")]
         extra = rng.sample(extra, min(len(extra), 60 if full else 15))
         problems = FT.number(problems + extra)
+    if not replay:
+        # cross-feature problems (families/mixed.py): what is reported / exported / drawn for schedules that combine
+        # buffers, indicators, selections, cumulative workers, optional tasks and shifted assignments
+        from families import mixed as F_mixed
+        extra = []
+        for focus in ("buffer", "indicator", "basic"):
+            extra += [q for q in F_mixed.fam_mixed(tier, seed, focus, n=(20 if full else 4) if prop == "C11" else (12 if full else 3))]
+        problems = FT.number([json.loads(json.dumps(q)) for q in problems + extra])
     V, st_enum = tlc.enumerate_V(problems)
     k = per_problem or ((12 if full else 4) if not gantt else (5 if full else 2))
     jobs = []
